@@ -150,11 +150,13 @@ CHECKS = {
          "in this sandbox (python-multipart missing).",
     design="§7 C18", technique="Lean 4 theorem (answer set via T0, maximal-q negotiation over a stable sort) + correspondence through rdflib SPARQL and both web frameworks"),
  "C19": dict(
-    text="Proof: C19_wf (valid strict converter, no synonyms), C19_ends (every URI prefix ends in a delimiter and comes from an "
-         "unrecognised input URI with an alphanumeric tail), C19_roundtrip_partial (with no cutoff every qualifying non-GitHub-"
-         "issue URI compresses and expands back to itself; metaprefix without ':'), C19_github_not_learned (the unrestricted "
-         "round trip is false: known finding F9). Order / repetition independence, numbering and the cutoff rule are checked "
-         "on the implementation on every run (three input orders) and through the correspondence; not yet theorems.",
+    text="Proof: C19_perm_dup (the records, hence the converter, are a function of the set of input URIs: any order, any "
+         "repetition), C19_wf (valid strict converter, no synonyms), C19_ends (every URI prefix ends in a delimiter and comes "
+         "from an unrecognised input URI with an alphanumeric tail), C19_names (named metaprefix1, metaprefix2, ... in sorted "
+         "URI-prefix order), C19_cutoff (kept iff at least cutoff distinct identifiers), C19_roundtrip_partial (with no cutoff "
+         "every qualifying non-GitHub-issue URI compresses and expands back to itself; metaprefix without ':'), "
+         "C19_github_not_learned (the unrestricted round trip is false: known finding F9). For every alnum classification, "
+         "delimiter list, cutoff, metaprefix and pre-existing converter.",
     design="§7 C19", technique="Lean 4 theorem (soundness/completeness of the collected prefixes, round trip via C01/C03) + model/implementation correspondence in three input orders"),
  "C20": dict(
     text="Proof: C20_prefix (is_w3c_prefix iff ASCII NCName), C20_luid (the identifier pattern matched in full = whitespace-free "
